@@ -76,6 +76,7 @@ Definition err_code (e : err) : nat :=
   | ECast => 4
   | EView => 5
   | ENoX => 6
+  | EMultiView => 7
   | EItem => 98
   end%nat.
 
